@@ -1,5 +1,5 @@
 /-
-C10 — Writing a Dataset to disk and reading it back is the identity (partial).
+C10 — Writing a Dataset to disk and reading it back is the identity.
 
 Property theorems about `Model/H5Attr.lean` (the attribute codec) and `Model/H5Dataset.lean` (write /
 read over an abstract tree of HDF5 groups with the two memos `id ↦ field name`, `field name ↦ object`).
@@ -8,19 +8,32 @@ Proved, for all inputs:
 * `decode_encode`        the codec is the identity on every meta tree that can be saved (dicts, lists,
                          tuples, sets, strings, numbers, booleans, None, NaN, ±inf, any nesting);
                          `savable`, `strings_untouched`.
-* `level_filter`         the file lists exactly — and in order — the fields (recursively) whose write level
-                         is at least the requested one; `restricted_fields_have_level`.
-* `array_bit_identical`  the array of a field without references (bool, float, text, sigma, time,
-                         time delta) is read back bit for bit (kind, shape, rows), whatever the memo holds;
-                         `units_identical` (None ↔ "").
-Not proved (full statement, measured by the correspondence through real h5py files and by the oracle):
-  `read_write : writable d → observe (read (write d ℓ)) = observe (restrict d ℓ)` for the whole dataset and
-  `refs_restored` (an attached object is again the very field it referred to, for every reference
-  topology).  The model executes both (the driver's `rt` against `restrict`), the theorems above are the
-  per-array and per-attribute parts of it; the assembly over the two memos is not proved.
+* `read_write`           for every heap `h`, dataset `d` and level `ℓ` with `Writable h d ℓ` (a decidable
+                         predicate, `Model/H5Dataset.lean`; the driver evaluates it on every generated
+                         dataset): `writeDS` succeeds and `readBack` of the file is
+                         `restrict d ℓ` — same `num_obs`, same fields in the same order with the same names,
+                         types, units, write levels, declared lengths and nested collections at any depth —
+                         over a heap in which the array objects are renumbered by a map `φ` that is injective
+                         on the reachable objects and maps each of them to an object of the same kind, shape
+                         and rows whose `other` / `ref_pos` is the image of the old one (`Obj.rename φ`).
+                         The renumbering is the model's `id()`: object numbers are allocation order.
+* `refs_restored`        field `p`'s attached object *is* field `q` after the read iff it was before (any
+                         two paths: earlier / later field, field in a collection at any depth);
+  `sharing_restored`     two fields share one attached object after the read iff they did before (an
+                         anonymous attachment stays one object when shared, two objects stay two);
+  `refs_restored_chains` the same for every reachable object (attachments of attachments, to any depth):
+                         its reference is the image of the old one, and an attached object is the array of
+                         the field at path `q` after iff before (so an anonymous one stays anonymous).
+* `omitted_iff_below_level`  `dset[path]` exists after the read iff it existed and the field and every
+                         collection around it has write level ≥ ℓ (at every nesting depth);
+  `level_filter(_nested)`, `restricted_fields_have_level`: the file side of the same fact.
+* `array_bit_identical`, `units_identical`: the per-array / per-attribute parts (kept from before).
+Not covered by `Writable` (so outside the theorem): one array object held by two *fields* (written twice,
+read back as two objects), attachments of the plain classes, cyclic references, a delta without `ref_pos`.
 -/
 import Midgard.Proofs.H5Attr
 import Midgard.Proofs.H5Dataset
+import Midgard.Proofs.H5Refs
 
 namespace Midgard.Props.C10
 open Midgard.H5Attr Midgard.H5 Midgard.Dataset
@@ -80,11 +93,140 @@ theorem array_bit_identical (h : Heap) (u : Option (List String)) (l : Nat) (fil
 theorem units_identical (u : Option (List String)) (hu : ∀ us, u = some us → us.any (fun x => !x.isEmpty) = true) :
     readUnit u = u := readUnit_id u hu
 
+/-! ### the whole dataset -/
+
+/-- **`read (write d ℓ) = restrict d ℓ`**, up to the numbering `φ` of the array objects (`id()` in the
+code): the write succeeds; the read gives the declared number of observations and exactly the fields of
+`restrict d ℓ` (order, names, types, units, levels, lengths, nesting) with every array object `o`
+replaced by `φ o`; every object reachable from these fields (through `other` / `ref_pos`, to any depth)
+is mapped to an object with the same kind, shape and rows whose reference is the image of the old one;
+`φ` is injective on the reachable objects (no two objects are merged, no object is duplicated). -/
+theorem read_write (h : Heap) (d : DS) (lvl : Nat) (hw : Writable h d lvl) :
+    ∃ (file : File) (h' : Heap) (φ : Nat → Nat), writeDS h d lvl = .ok file ∧
+      readBack h d file = .ok (h', { numObs := d.numObs, fields := renameFields φ (restrictFields lvl d.fields) }) ∧
+      (∀ x, Reach h (restrictFields lvl d.fields) x → ∃ ob, h[x]? = some ob ∧ h'[φ x]? = some (ob.rename φ)) ∧
+      (∀ x y, Reach h (restrictFields lvl d.fields) x → Reach h (restrictFields lvl d.fields) y → φ x = φ y → x = y) :=
+  roundTrip_core h d lvl hw
+
+/-- **cross references**: for any two field paths `p`, `q` — the attached object (`other` / `ref_pos`) of
+field `p` *is* the array of field `q` after the read iff it was before.  `q` may be an earlier or a later
+field, or a field inside a collection at any depth. -/
+theorem refs_restored (h : Heap) (d : DS) (lvl : Nat) (hw : Writable h d lvl) :
+    ∃ (file : File) (h' : Heap) (d' : DS), writeDS h d lvl = .ok file ∧ readBack h d file = .ok (h', d') ∧
+      ∀ p q : Path,
+        (∃ o ob x, leafAt (restrictFields lvl d.fields) p = some o ∧ h[o]? = some ob ∧ ob.ref = some x ∧
+          leafAt (restrictFields lvl d.fields) q = some x) ↔
+        (∃ o' ob' x', leafAt d'.fields p = some o' ∧ h'[o']? = some ob' ∧ ob'.ref = some x' ∧
+          leafAt d'.fields q = some x') := by
+  obtain ⟨file, h', φ, hwr, hrd, himg, hinj⟩ := roundTrip_core h d lvl hw
+  exact ⟨file, h', _, hwr, hrd, fun p q => IsoOn.refs_paths ⟨himg, hinj⟩ p q⟩
+
+/-- **shared attachments**: two fields whose arrays each have an attached object share *one* object after
+the read iff they shared one before (an anonymous position attached to several fields stays one object;
+two equal-looking attachments stay two). -/
+theorem sharing_restored (h : Heap) (d : DS) (lvl : Nat) (hw : Writable h d lvl) :
+    ∃ (file : File) (h' : Heap) (d' : DS), writeDS h d lvl = .ok file ∧ readBack h d file = .ok (h', d') ∧
+      ∀ (p1 p2 : Path) (o1 o2 x1 x2 : Nat) (ob1 ob2 : Obj),
+        leafAt (restrictFields lvl d.fields) p1 = some o1 → leafAt (restrictFields lvl d.fields) p2 = some o2 →
+        h[o1]? = some ob1 → h[o2]? = some ob2 → ob1.ref = some x1 → ob2.ref = some x2 →
+        ∃ o1' o2' ob1' ob2' x1' x2', leafAt d'.fields p1 = some o1' ∧ leafAt d'.fields p2 = some o2' ∧
+          h'[o1']? = some ob1' ∧ h'[o2']? = some ob2' ∧ ob1'.ref = some x1' ∧ ob2'.ref = some x2' ∧
+          (x1' = x2' ↔ x1 = x2) := by
+  obtain ⟨file, h', φ, hwr, hrd, himg, hinj⟩ := roundTrip_core h d lvl hw
+  exact ⟨file, h', _, hwr, hrd, fun p1 p2 _ _ _ _ _ _ a b c e f g => IsoOn.sharing ⟨himg, hinj⟩ p1 p2 a b c e f g⟩
+
+/-- **every reference topology, chains included**: for every object `z` reachable from the written fields
+(a field's array, its attachment, the attachment's attachment, …) that has a reference `y`: after the read
+the image of `z` refers to the image of `y`; an object is the array of the field at `q` after the read iff
+it was before (so an attachment that was no field is no field); different objects stay different. -/
+theorem refs_restored_chains (h : Heap) (d : DS) (lvl : Nat) (hw : Writable h d lvl) :
+    ∃ (file : File) (h' : Heap) (φ : Nat → Nat), writeDS h d lvl = .ok file ∧
+      readBack h d file = .ok (h', { numObs := d.numObs, fields := renameFields φ (restrictFields lvl d.fields) }) ∧
+      (∀ z y ob, Reach h (restrictFields lvl d.fields) z → h[z]? = some ob → ob.ref = some y →
+        ∃ ob', h'[φ z]? = some ob' ∧ ob'.ref = some (φ y) ∧ Reach h (restrictFields lvl d.fields) y) ∧
+      (∀ x q, Reach h (restrictFields lvl d.fields) x →
+        (leafAt (renameFields φ (restrictFields lvl d.fields)) q = some (φ x) ↔
+          leafAt (restrictFields lvl d.fields) q = some x)) ∧
+      (∀ x y, Reach h (restrictFields lvl d.fields) x → Reach h (restrictFields lvl d.fields) y → φ x = φ y → x = y) := by
+  obtain ⟨file, h', φ, hwr, hrd, himg, hinj⟩ := roundTrip_core h d lvl hw
+  have iso : IsoOn h h' (restrictFields lvl d.fields) φ := ⟨himg, hinj⟩
+  exact ⟨file, h', φ, hwr, hrd, fun z y ob hz hob hr => iso.ref hz hob hr, fun x q hx => iso.fieldness hx q, hinj⟩
+
+/-- "Fields below the requested write level, and only those, are omitted", on `restrict`, at every nesting
+depth: `restrict d ℓ` has a field at `path` iff `d` has one there and that field and every collection
+around it has write level ≥ ℓ (field names unique, as dict keys are) -/
+theorem restrict_omits_iff_below_level (lvl : Nat) (fs : List Field) (hn : namesOK fs = true) (p : Path) :
+    (findField (restrictFields lvl fs) p).isSome = visible lvl fs p :=
+  findField_restrict lvl p fs hn
+
+/-- the same on the dataset read back from the file -/
+theorem omitted_iff_below_level (h : Heap) (d : DS) (lvl : Nat) (hw : Writable h d lvl) (hn : namesOK d.fields = true) :
+    ∃ (file : File) (h' : Heap) (d' : DS), writeDS h d lvl = .ok file ∧ readBack h d file = .ok (h', d') ∧
+      ∀ p : Path, (findField d'.fields p).isSome = visible lvl d.fields p := by
+  obtain ⟨file, h', φ, hwr, hrd, _, _⟩ := roundTrip_core h d lvl hw
+  refine ⟨file, h', _, hwr, hrd, fun p => ?_⟩
+  show (findField (renameFields φ (restrictFields lvl d.fields)) p).isSome = _
+  rw [findField_rename_isSome, findField_restrict lvl p d.fields hn]
+
 /-! ### non-vacuity -/
 
-example : decode ((encode (.dict [(.atom (.str "nan"), .list [.atom .nan, .atom .ninf, .atom (.int (-3))])])).get!) =
-    some (.dict [(.atom (.str "nan"), .list [.atom .nan, .atom .ninf, .atom (.int (-3))])]) :=
-  decode_encode _ _ rfl
+/-- a heap with: an anonymous position shared by two fields (0), a position field `b` that comes *after*
+the field `a` that refers to it (1, 2), arrays of a nested collection (3, 4, 6, 9), an anonymous posvel (5)
+that is the `ref_pos` of the delta `c.d` and itself refers to the field `c.deep.b2` (a chain), a field below
+the level that shares the anonymous position (7), a time (8) -/
+def exHeap : Heap :=
+  let r3 : Row := [.num 1, .num 2, .num 3]
+  let r6 : Row := [.num 1, .num 2, .num 3, .num 4, .num 5, .num 6]
+  [ { kind := .position, ndim := 2, cols := 3, rows := [r3, r3] },
+    { kind := .position, ndim := 2, cols := 3, rows := [r3, r3], other := some 0 },
+    { kind := .position, ndim := 2, cols := 3, rows := [r3, r3], other := some 1 },
+    { kind := .float, ndim := 1, cols := 1, rows := [[.num (1/2)], [.nan]] },
+    { kind := .posvel, ndim := 2, cols := 6, rows := [r6, r6] },
+    { kind := .posvel, ndim := 2, cols := 6, rows := [r6, r6], other := some 4 },
+    { kind := .posvelDelta, ndim := 2, cols := 6, rows := [r6, r6], refPos := some 5 },
+    { kind := .position, ndim := 2, cols := 3, rows := [r3, r3], other := some 0 },
+    { kind := .time, ndim := 1, cols := 1, rows := [[.num 2451545, .num 0], [.num 2451545, .num (1/2)]] },
+    { kind := .text, ndim := 1, cols := 1, rows := [[.txt "nan"], [.txt " x"]] } ]
+
+def exFields : List Field :=
+  [ .leaf "a" .position 2 2 (some ["meter", "meter", "meter"]) 3,
+    .leaf "t" .time 8 2 none 2,
+    .coll "c" 2 2 [ .leaf "x" .float 3 2 (some ["byte"]) 3, .leaf "d" .posvelDelta 6 2 none 2,
+                    .leaf "y" .text 9 2 none 1, .coll "deep" 2 3 [ .leaf "b2" .posvel 4 2 none 2 ] ],
+    .leaf "b" .position 1 2 none 3,
+    .leaf "e" .position 7 2 none 1 ]
+
+def exDS : DS := { numObs := 2, fields := exFields }
+
+/-- at level 2 the fields `c.y` and `e` are omitted -/
+theorem exRestrict : restrictFields 2 exDS.fields =
+    [ .leaf "a" .position 2 2 (some ["meter", "meter", "meter"]) 3,
+      .leaf "t" .time 8 2 none 2,
+      .coll "c" 2 2 [ .leaf "x" .float 3 2 (some ["byte"]) 3, .leaf "d" .posvelDelta 6 2 none 2,
+                      .coll "deep" 2 3 [ .leaf "b2" .posvel 4 2 none 2 ] ],
+      .leaf "b" .position 1 2 none 3 ] := by
+  simp [exDS, exFields, restrictFields, Midgard.H5.Field.level]
+
+example : Writable exHeap exDS 2 := by
+  have h1 : heapOK exHeap = true := by decide +kernel
+  simp only [Writable, writableB, exRestrict, h1]
+  simp [fieldsOK, namesOK, leafObjs, nodupB, unitOK, objLen, exHeap, exDS, Midgard.Dataset.names, Field.name]
+
+/-- the left-hand side of `refs_restored` is inhabited: `a`'s `other` is the later field `b` -/
+example : ∃ o ob x, leafAt (restrictFields 2 exDS.fields) ["a"] = some o ∧ exHeap[o]? = some ob ∧ ob.ref = some x ∧
+    leafAt (restrictFields 2 exDS.fields) ["b"] = some x := by
+  refine ⟨2, _, 1, ?_, rfl, rfl, ?_⟩ <;> rw [exRestrict] <;> rfl
+
+/-- a chain: field `c.d` (6) → anonymous posvel (5) → field `c.deep.b2` (4); the field `e` is omitted -/
+example : Reach exHeap (restrictFields 2 exDS.fields) 4 ∧ Reach exHeap (restrictFields 2 exDS.fields) 5 ∧
+    leafAt (restrictFields 2 exDS.fields) ["c", "deep", "b2"] = some 4 ∧ leafAt (restrictFields 2 exDS.fields) ["e"] = none := by
+  have h6 : Reach exHeap (restrictFields 2 exDS.fields) 6 := .field (by simp [exRestrict, leafObjs])
+  have h5 : Reach exHeap (restrictFields 2 exDS.fields) 5 := .ref (ob := exHeap[6]) h6 rfl rfl
+  refine ⟨.ref (ob := exHeap[5]) h5 rfl rfl, h5, ?_, ?_⟩ <;> rw [exRestrict] <;> rfl
+
+/-- a dataset in which two fields hold one array object is not `Writable` (the file holds it twice) -/
+example : ¬ Writable exHeap { numObs := 2, fields := [.leaf "a" .position 2 2 none 3, .leaf "a2" .position 2 2 none 3] } 2 := by
+  simp [Writable, writableB, restrictFields, Midgard.H5.Field.level, leafObjs, nodupB]
 
 end Midgard.Props.C10
 
@@ -96,3 +238,10 @@ end Midgard.Props.C10
 #print axioms Midgard.Props.C10.restricted_fields_have_level
 #print axioms Midgard.Props.C10.array_bit_identical
 #print axioms Midgard.Props.C10.units_identical
+#print axioms Midgard.Props.C10.read_write
+#print axioms Midgard.Props.C10.refs_restored
+#print axioms Midgard.Props.C10.sharing_restored
+#print axioms Midgard.Props.C10.refs_restored_chains
+#print axioms Midgard.Props.C10.restrict_omits_iff_below_level
+#print axioms Midgard.Props.C10.omitted_iff_below_level
+#print axioms Midgard.Props.C10.exRestrict
